@@ -76,7 +76,8 @@ impl Request {
 }
 
 // Keys travel between the nodes inside one-line messages: a key holding a line break would reach the
-// other nodes as a different key (and value) than the one checked and written here
+// other nodes as a different key (and value) than the one checked and written here. The reading
+// commands drop the line breaks too, so that the same text names the same key in every command
 fn key_without_line_breaks(key: &str) -> String {
     key.replace("\n", "").replace("\r", "")
 }
@@ -243,7 +244,7 @@ fn parse_set_command(command: &mut std::str::SplitN<&str>) -> Result<Request, St
 }
 fn parse_get_safe_command(command: &mut std::str::SplitN<&str>) -> Result<Request, String> {
     let key = match command.next() {
-        Some(key) => key.replace("\n", ""),
+        Some(key) => key_without_line_breaks(key),
         None => return Err(format!("get-safe must contain a key")),
     };
     Ok(Request::GetSafe { key })
@@ -251,7 +252,7 @@ fn parse_get_safe_command(command: &mut std::str::SplitN<&str>) -> Result<Reques
 
 fn parse_get_command(command: &mut std::str::SplitN<&str>) -> Result<Request, String> {
     let key = match command.next() {
-        Some(key) => key.replace("\n", ""),
+        Some(key) => key_without_line_breaks(key),
         None => return Err(format!("get must contain a key")),
     };
     Ok(Request::Get { key })
@@ -259,7 +260,7 @@ fn parse_get_command(command: &mut std::str::SplitN<&str>) -> Result<Request, St
 
 fn parse_unwatch_command(command: &mut std::str::SplitN<&str>) -> Result<Request, String> {
     let key = match command.next() {
-        Some(key) => key.replace("\n", ""),
+        Some(key) => key_without_line_breaks(key),
         None => return Err(format!("unwatch must contain a key")),
     };
     Ok(Request::UnWatch { key })
@@ -615,7 +616,7 @@ fn parse_list_commands_command(_: &mut std::str::SplitN<&str>) -> Result<Request
 }
 fn parse_watch_command(command: &mut std::str::SplitN<&str>) -> Result<Request, String> {
     let key = match command.next() {
-        Some(key) => key.replace("\n", ""),
+        Some(key) => key_without_line_breaks(key),
         None => return Err(format!("watch must contain a key")),
     };
     Ok(Request::Watch { key })
